@@ -62,10 +62,23 @@ def run_prot(prop, tier, seed, fail=False):
             for toks in (["new", "fill:a5", "resize:%d" % (2 * n + 1), "drop"], ["new", "fill:a5", "resize:3", "drop"], ["new", "fill:a5", "clone", "drop", "drop@1"],
                          ["new", "fill:a5", "lock", "resize:%d" % (n + 4096), "resize:1", "drop"], ["new", "fill:5a", "drop"]):
                 cases.append(Case("prot bytes %d %s" % (n, " ".join(toks)), cls="bytes/large-or-odd"))
+    if prop == "C15":
+        # an explicit zeroize() of the live container in the middle of its life, then a second secret and a reallocation:
+        # whatever the wipe remembers about "already clean" must not survive the refill (differential-only: not in the Lean model)
+        for n in (32, 64, 1000, 4096, 8192, 8209):
+            for pre in (["new", "fill:a5"], ["new", "fill:a5", "lock", "unlock"]):
+                for grow in (2 * n + 1, 4 * n + 4096):
+                    cases.append(Case("prot bytes %d %s" % (n, " ".join(pre + ["zeroize", "resize:%d" % n, "fill:77", "resize:%d" % grow, "fill:78", "drop"])), cls="bytes/explicit-zeroize"))
+                    cases.append(Case("prot bytes %d %s" % (n, " ".join(pre + ["zeroize", "resize:%d" % n, "fill:77", "clone", "resize:%d" % grow, "drop", "drop@1"])), cls="bytes/explicit-zeroize"))
+        # secrets behind an all-zero page (zero-padded buffers): every page of a released block must be wiped, not only a prefix
+        for n in (8192, 12288, 20000):
+            for toks in (["new", "fill:00", "resize:%d" % (n + 100), "fillfrom:%d:5a" % n, "resize:%d" % (4 * n), "drop"],
+                         ["new", "fill:00", "lock", "unlock", "resize:%d" % (n + 100), "fillfrom:%d:5a" % n, "resize:%d" % (4 * n), "drop"]):
+                cases.append(Case("prot bytes %d %s" % (n, " ".join(toks)), cls="bytes/zero-page-prefix"))
     if fail or prop != "C14":
         # Result-returning constructors under refusal / plain
         for n in protfam.LENS:
-            for ctor in ("fsl:%d" % n, "fsro:%d" % n, "newlocked", "genlocked", "newrolocked", "genrolocked"):
+            for ctor in ("fsl:%d" % n, "fsro:%d" % n, "newlocked", "genlocked", "newrolocked", "genrolocked", "serde:json:%d" % n, "serde:bincode:%d" % n):
                 for k in ([1, 2, 3, 1001, 11001, 22002] if fail else [0]):
                     pre = ["failfrom:%d" % k] if k else []
                     for kind in ("bytes", "arr") if n in protfam.ARR_LENS else ("bytes",):
@@ -79,6 +92,8 @@ def run_prot(prop, tier, seed, fail=False):
         res.count(c.cls)
         i = impl.get(c.id, ["missing"])[0]
         m = model.get(c.id, ["n/a"])[0]
+        if "fillfrom:" in c.line or " serde:" in c.line:      # suffix fills / serde decoding are not operations of the Lean model: judged by the predicate alone
+            m = "n/a"
         if m == "bad-op":
             m = "n/a"; res.extra["model_unsupported"] = res.extra.get("model_unsupported", 0) + 1
         answers = {"impl": i[:3000], "model": m[:3000]}
